@@ -31,6 +31,12 @@ M = [
  ("C06__uncompressed_skips_curve_check", "point_s11n.go", "\tif xyOnCurve(x, y) != 1 {\n\t\treturn nil, errPointNotOnCurve\n\t}\n\n\tv.x.Set(x)", "\tif xyOnCurve(x, y) > 1 {\n\t\treturn nil, errPointNotOnCurve\n\t}\n\n\tv.x.Set(x)"),
  ("C06__failed_decode_clobbers_receiver", "point_s11n.go", "\ty, hasSqrt := field.NewElement().Sqrt(maybeYY(x))\n\tif hasSqrt != 1 {", "\tv.x.Set(x)\n\ty, hasSqrt := field.NewElement().Sqrt(maybeYY(x))\n\tif hasSqrt != 1 {"),
  ("C06__onaff_constant", "point_s11n.go", "feB = field.NewElementFromUint64(7)", "feB = field.NewElementFromUint64(8)"),
+ ("C12__revert_f1_unused_bits_check", "secec/s11n.go", "\tif subjectPublicKey.BitLength != 8*len(subjectPublicKey.Bytes) {\n\t\treturn nil, errInvalidAsn1SPKI\n\t}\n", ""),
+ ("C12__der_trailing_garbage_in_sequence", "secec/s11n.go", "\t\t!inner.ReadASN1Integer(&sBytes) ||\n\t\t!inner.Empty() {", "\t\t!inner.ReadASN1Integer(&sBytes) {"),
+ ("C12__bip66_max_len_74", "secec/bitcoin/asn1_shitcoin.go", "case lenSig > 73:", "case lenSig > 74:"),
+ ("C12__compact_s_zero_accepted", "secec/s11n.go", "\tif err != nil || s.IsZero() != 0 {\n\t\treturn nil, nil, errInvalidScalar\n\t}\n\n\treturn r, s, nil\n}\n\n// BuildCompactSignature", "\tif err != nil {\n\t\treturn nil, nil, errInvalidScalar\n\t}\n\n\treturn r, s, nil\n}\n\n// BuildCompactSignature"),
+ ("C12__scalar_33_bytes", "secec/s11n.go", "if sLen > secp256k1.ScalarSize || sLen == 0 {", "if sLen > secp256k1.ScalarSize+1 || sLen == 0 {"),
+ ("C12__spki_wrong_curve_oid_accepted", "secec/s11n.go", "\tif !oidCurve.Equal(oidSecp256k1) {\n\t\treturn nil, errInvalidAsn1Curve\n\t}\n", ""),
  # harmless refactorings: must stay green
  ("pass__C01__rename_local", "internal/field/field.go", "\tl := helpers.BytesToSaturated(src)\n\n\tdidReduce := reduceSaturated(&l, &l)\n\tfe.uncheckedSetSaturated(&l)\n\n\treturn fe, didReduce", "\tlimbs := helpers.BytesToSaturated(src)\n\n\twasReduced := reduceSaturated(&limbs, &limbs)\n\tfe.uncheckedSetSaturated(&limbs)\n\n\treturn fe, wasReduced"),
  ("pass__C03__commuted_add", "point_projective.go", "\t// t4 := t0 + t1 ; t3 := t3 - t4 ; t4 := Y1 + Z1 ;\n\tt4.Add(t0, t1)\n\tt3.Subtract(t3, t4)\n\tt4.Add(y1, z1)\n\n\t// X3 := Y2 + Z2", "\t// t4 := t0 + t1 ; t3 := t3 - t4 ; t4 := Y1 + Z1 ;\n\tt4.Add(t1, t0)\n\tt3.Subtract(t3, t4)\n\tt4.Add(z1, y1)\n\n\t// X3 := Y2 + Z2"),
